@@ -129,3 +129,31 @@ Definition RowsCarried (eqa : acct) (src exp : list brow) : Prop :=
      exists r', In r' exp /\ r_key r' = r_key r /\ d28 (r_own r') = d28 (r_own r))
   /\ (forall r', In r' exp -> r_acc r' <> eqa -> d28 (r_own r') <> 0 ->
      exists r, In r src /\ r_key r = r_key r').
+
+(* --- the configured equity account name -------------------------------------------------
+   The export writes the name as the account of a posting line, so it has to be an account
+   name of the journal grammar. eq_account_ok is that condition on the components (the name
+   split at ':'), mirroring parser::is_valid_id (first component) / is_valid_sub_id (the
+   others): non-empty, no white space and no ':' inside, the first character is not an ASCII
+   digit (first component only), ':', '-', '_', U+00B7 or white space.
+   (c.is_numeric() || is_valid_id_start_char(c)  =  ASCII digit or id start, because the only
+   numeric characters is_valid_id_start_char excludes are the ASCII digits.)
+   Settings::try_from rejects any other name when the equity export is a target (F20); the
+   theorems of C10 are stated at AST level and hold for every eqa, the text-level tie assumes
+   eq_account_ok. *)
+Definition is_ws (c : N) : bool :=      (* char::is_whitespace = Unicode White_Space *)
+  ((9 <=? c) && (c <=? 13) || (c =? 32) || (c =? 133) || (c =? 160) || (c =? 5760)
+   || (8192 <=? c) && (c <=? 8202) || (c =? 8232) || (c =? 8233) || (c =? 8239) || (c =? 8287)
+   || (c =? 12288))%N.
+Definition ascii_digit (c : N) : bool := ((48 <=? c) && (c <=? 57))%N.
+Definition id_start_ok (c : N) : bool :=
+  negb (ascii_digit c || (c =? 58)%N || (c =? 45)%N || (c =? 95)%N || (c =? 183)%N || is_ws c).
+Definition sub_id_start_ok (c : N) : bool := ascii_digit c || id_start_ok c.
+Definition id_chars_ok (s : list N) : bool := forallb (fun c => negb ((c =? 58)%N || is_ws c)) s.
+Definition comp_ok_b (start : N -> bool) (s : list N) : bool :=
+  match s with [] => false | c :: _ => start c && id_chars_ok s end.
+Definition eq_account_ok (a : acct) : bool :=
+  match a with
+  | [] => false
+  | c0 :: rest => comp_ok_b id_start_ok c0 && forallb (comp_ok_b sub_id_start_ok) rest
+  end.
